@@ -34,16 +34,28 @@ Print Assumptions C18_passthrough.
 (* exactly the supplied client certificate with the supplied key (and then the pair is usable); none when no
    certificate was supplied (a key alone requests no identity) *)
 Theorem C18_cert_exact : forall e o c, tls_client_auth e o = Config c ->
-  match supplied_identity o with
+  match supplied_identity e o with
   | None => c_certs c = []
   | Some (ce, ko) => exists k, ko = Some k /\ c_certs c = [(ce, k)] /\ usable e o = true
   end.
 Proof. exact cert_exact. Qed.
 Print Assumptions C18_cert_exact.
 
+(* a certificate FILE may hold a chain (leaf, then intermediates): every certificate block of the file is presented,
+   in file order, nothing dropped and nothing added; a loaded certificate is presented alone *)
+Theorem C18_chain_complete : forall e o c cf, tls_client_auth e o = Config c -> o_cert_file o = Some cf ->
+  exists kf, o_key_file o = Some kf /\ c_certs c = [(file_chain e cf, kf)].
+Proof. exact chain_complete. Qed.
+Print Assumptions C18_chain_complete.
+
+Theorem C18_loaded_single : forall e o c lc, tls_client_auth e o = Config c -> o_cert_file o = None -> o_loaded_cert o = Some lc ->
+  exists kind k, o_loaded_key o = Some (kind, k) /\ c_certs c = [([lc], k)].
+Proof. exact loaded_single. Qed.
+Print Assumptions C18_loaded_single.
+
 (* a certificate was supplied and the material is unusable (no key of the same form, unsupported key type,
    unmarshalable key, pair rejected, unreadable file): an error, never a configuration *)
-Theorem C18_bad_material_is_error : forall e o, supplied_identity o <> None -> usable e o = false ->
+Theorem C18_bad_material_is_error : forall e o, supplied_identity e o <> None -> usable e o = false ->
   exists err, tls_client_auth e o = Error err /\ (err = ECert \/ err = EKey).
 Proof. exact bad_material_is_error. Qed.
 Print Assumptions C18_bad_material_is_error.
@@ -51,7 +63,7 @@ Print Assumptions C18_bad_material_is_error.
 (* errors arise from nothing else: unusable requested identity, or the consulted CA file cannot be read *)
 Theorem C18_error_iff : forall e o,
   (exists err, tls_client_auth e o = Error err) <->
-  ((supplied_identity o <> None /\ usable e o = false) \/ ca_file_unreadable e o = true).
+  ((supplied_identity e o <> None /\ usable e o = false) \/ ca_file_unreadable e o = true).
 Proof. exact error_iff. Qed.
 Print Assumptions C18_error_iff.
 
@@ -68,9 +80,27 @@ Theorem C18_predicate_sound : forall e o c, c18_holds e o (Config c) = true ->
   (forall l, c_roots c = RPool l -> forall x, In x l <-> effective_root e o x) /\
   c_server_name c = o_server_name o /\ c_callback c = o_callback o /\
   c_tickets_disabled c = o_tickets_disabled o /\ c_cache c = o_cache o /\
-  match supplied_identity o with
+  match supplied_identity e o with
   | None => c_certs c = []
   | Some (ce, ko) => exists k, ko = Some k /\ c_certs c = [(ce, k)] /\ usable e o = true
   end.
 Proof. exact predicate_sound. Qed.
 Print Assumptions C18_predicate_sound.
+
+(* several calls in one process, the material behind the same paths possibly changed, replaced by invalid material or
+   removed between them: the n-th answer is the single call on the material of that moment, whatever was called
+   before; hence every clause above holds of every call of a history *)
+Theorem C18_history_no_memory : forall h n e o,
+  nth_error h n = Some (e, o) -> nth_error (tls_history h) n = Some (tls_client_auth e o).
+Proof. exact history_nth. Qed.
+Print Assumptions C18_history_no_memory.
+
+Theorem C18_history_holds : forall h, c18_history_holds h (tls_history h) = true.
+Proof. exact history_holds. Qed.
+Print Assumptions C18_history_holds.
+
+Theorem C18_history_predicate_sound : forall h rs, c18_history_holds h rs = true ->
+  length rs = length h /\
+  forall n e o r, nth_error h n = Some (e, o) -> nth_error rs n = Some r -> c18_holds e o r = true.
+Proof. exact history_holds_inv. Qed.
+Print Assumptions C18_history_predicate_sound.
